@@ -1158,7 +1158,21 @@ func (cx *Ctx) exportFilters(reach *Reach, a rejectAtom) bool {
 					continue
 				}
 				if n := namedOf(sl.Elem()); n == nil || n.Obj().Name() != a.typ {
-					continue
+					// (or a small carrier record that embeds / holds the exported record:
+					// openHTLC{types.HTLC; id})
+					holds := false
+					if n != nil {
+						if st, ok := n.Underlying().(*types.Struct); ok {
+							for i := 0; i < st.NumFields(); i++ {
+								if fn := namedOf(st.Field(i).Type()); fn != nil && fn.Obj().Name() == a.typ {
+									holds = true
+								}
+							}
+						}
+					}
+					if !holds {
+						continue
+					}
 				}
 				for _, df := range dominatingFacts(b) {
 					bo, ok := df.Cond.(*ssa.BinOp)
